@@ -840,17 +840,18 @@ def model_check(chk: Check, quick: bool) -> None:
     runs = [('31+22', '{31, 22}', '{"ok", "fail", "upass", "timeout", "skip"}', 'TRUE')]
     if not quick:
         runs = [
-            ('31+22+32', '{31, 22, 32}', '{"ok", "fail", "upass", "xfail", "timeout", "skip", "error"}', 'TRUE'),
-            ('41', '{41}', '{"ok", "fail", "upass", "timeout", "skip"}', 'FALSE'),
-            ('42', '{42}', '{"ok", "fail", "timeout"}', 'FALSE'),
+            ('31+22/7kinds/flaky', '{31, 22}', '{"ok", "fail", "upass", "xfail", "timeout", "skip", "error"}', 'TRUE'),
+            ('41/5kinds', '{41}', '{"ok", "fail", "upass", "timeout", "skip"}', 'FALSE'),
+            ('32/3kinds', '{32}', '{"ok", "fail", "timeout"}', 'FALSE'),
+            ('32/2kinds/flaky', '{32}', '{"ok", "fail"}', 'TRUE'),
+            ('42/2kinds', '{42}', '{"ok", "fail"}', 'FALSE'),
         ]
     for name, shapes, kinds, flaky in runs:
         res = run_tlc(FAM, 'TestSched_MC', cfg_text=MC_CFG % {'shapes': shapes, 'kinds': kinds, 'flaky': flaky},
-                      timeout=3000, allow_violation=False, heap='4g', coverage=not quick and name == '31+22+32')
+                      timeout=3000, allow_violation=False, heap='4g', coverage=name == '32/3kinds')
         chk.add_tlc(f'TestSched_MC[{name}]', res)
-        if not quick and name == '31+22+32':
-            cov = res.coverage()
-            chk.extra['action_coverage'] = cov
+        if name == '32/3kinds':
+            chk.extra['action_coverage'] = res.coverage()
     res = run_tlc(FAM, 'TestSelect_MC', cfg_text=SELECT_CFG % (2 if quick else 3), timeout=3000, allow_violation=False)
     chk.add_tlc('TestSelect_MC', res)
 
@@ -902,8 +903,8 @@ def main(chk: Check) -> None:
     model_check(chk, quick)
     chk.extra['model_check_wall_s'] = round(time.time() - t0, 1)
 
-    n_proj = 14 if quick else 100
-    runs_per = 7 if quick else 9
+    n_proj = 12 if quick else 80
+    runs_per = 6 if quick else 8
     n_sel = 3 if quick else 5
     n_virtual = 600 if quick else 8000
     n_sim_inst = 6 if quick else 40
